@@ -87,28 +87,29 @@ type c11Alert struct {
 }
 
 type c11Obs struct {
-	ID       int        `json:"id"`
-	SetupErr string     `json:"setupErr,omitempty"` // "c: ..." / "s: ..." : option set rejected before any handshake
-	Lab      string     `json:"lab,omitempty"`
-	C        c11SideObs `json:"c"`
-	S        c11SideObs `json:"s"`
-	Alerts   []c11Alert `json:"alerts,omitempty"`
-	WireAl   int        `json:"wireAlerts"` // plaintext alert records seen on the wire
-	CH       []int      `json:"ch"`         // extension types of the last ClientHello on the wire
-	CH1      []int      `json:"ch1"`        // ... of the first ClientHello
-	CHSuites []int      `json:"chSuites"`   // cipher-suite ids of the last ClientHello (SCSV exception)
-	SH       []int      `json:"sh"`         // ServerHello extension types
-	HRR      []int      `json:"hrr"`        // HelloRetryRequest extension types
-	EE       []int      `json:"ee"`         // EncryptedExtensions extension types (server's handshake transcript)
-	NCH      int        `json:"nch"`
-	SHSuite  int        `json:"shSuite"`
-	SHVer    string     `json:"shVer"`
-	SigWire  int        `json:"sigWire"`  // signature scheme the server signed with (0 = none observed)
-	GrpWire  int        `json:"grpWire"`  // group of the server's key share (ServerKeyExchange / ServerHello key_share)
-	CSigWire int        `json:"csigWire"` // signature scheme of the client's CertificateVerify
-	Dgrams   int        `json:"dgrams"`
-	DataOK   bool       `json:"dataOk"`
-	MS       float64    `json:"ms"`
+	ID       int         `json:"id"`
+	SetupErr string      `json:"setupErr,omitempty"` // "c: ..." / "s: ..." : option set rejected before any handshake
+	Lab      string      `json:"lab,omitempty"`
+	C        c11SideObs  `json:"c"`
+	S        c11SideObs  `json:"s"`
+	Alerts   []c11Alert  `json:"alerts,omitempty"`
+	WireAl   int         `json:"wireAlerts"` // plaintext alert records seen on the wire
+	CH       []int       `json:"ch"`         // extension types of the last ClientHello on the wire
+	CH1      []int       `json:"ch1"`        // ... of the first ClientHello
+	CHSuites []int       `json:"chSuites"`   // cipher-suite ids of the last ClientHello (SCSV exception)
+	SH       []int       `json:"sh"`         // ServerHello extension types
+	HRR      []int       `json:"hrr"`        // HelloRetryRequest extension types
+	EE       []int       `json:"ee"`         // EncryptedExtensions extension types (server's handshake transcript)
+	NCH      int         `json:"nch"`
+	SHSuite  int         `json:"shSuite"`
+	SHVer    string      `json:"shVer"`
+	SigWire  int         `json:"sigWire"`  // signature scheme the server signed with (0 = none observed)
+	GrpWire  int         `json:"grpWire"`  // group of the server's key share (ServerKeyExchange / ServerHello key_share)
+	CSigWire int         `json:"csigWire"` // signature scheme of the client's CertificateVerify
+	Dgrams   int         `json:"dgrams"`
+	DataOK   bool        `json:"dataOk"`
+	MS       float64     `json:"ms"`
+	Sess     *c01Session `json:"sess,omitempty"`
 }
 
 func c11Sigs(in []int) []tls.SignatureScheme {
@@ -629,6 +630,9 @@ func c11Run(cs *c11Case, timeout, interval time.Duration) c11Obs {
 	}
 	if ce == nil && se == nil {
 		obs.DataOK = pingPong(r)
+		if cs.Session {
+			obs.Sess = c01Collect(r)
+		}
 		if st.s != nil && cs.S.Resume {
 			obs.S.Resumed = obs.S.SessID == hex.EncodeToString(labSessID)
 			obs.C.Resumed = obs.C.SessID == hex.EncodeToString(labSessID)
